@@ -1110,7 +1110,7 @@ def common_meta(ctx):
     ctx.rule = ("a case is one symbol string; streams: (a) every _Z symbol of a generated C++ translation unit compiled by g++ and "
                 "clang++ (expected result = the generator's qualified name, cross-checked with c++filt -p minus template "
                 "arguments), rustc legacy names of a generated crate, the names of utils/demangle.c's unit tests, and names of the "
-                "formal mangler of theorem C13_roundtrip_typed_partial (qualifiers, templates, class/nested/substitution parameter "
+                "formal grammar of theorem C13_roundtrip_general_partial (qualifiers, recursive template arguments, class/nested/substitution parameter "
                 "types with base-36 seq-ids of 0-3 digits; expected = the mangler's qualified name); (b) "
                 "grammar-directed random manglings over all productions the parser knows, nesting depth 1..40; (c) truncations at "
                 "every kind of boundary, byte/number mutations, random bytes 1..255, prefix/suffix variants; (d) every distinct "
